@@ -73,7 +73,14 @@ void run(const Workload& w, Result& res) {
         const size_t n = v.size();
         const int64_t live1 = sim::tracked_live();
 
-        auto cmp = [greater](const T& a, const T& b) { return greater ? keyof(a) > keyof(b) : keyof(a) < keyof(b); };
+        // a comparator with unsynchronised per-instance state (a call counter), as std::sort allows: the sort hands
+        // every thread its own copies; one instance called from two threads is a data race (seen by the tsan flavour)
+        struct Cmp {
+            bool greater;
+            mutable uint64_t calls = 0;
+            bool operator()(const T& a, const T& b) const { ++calls; return greater ? keyof(a) > keyof(b) : keyof(a) < keyof(b); }
+        };
+        Cmp cmp{greater};
         // "every input range": a vector, a deque (not contiguous) or reverse iterators (backwards in memory)
         const int range_kind = int(sim::modn(sim::cfg_at(w, C_RANGE), 3));
         auto do_sort = [&](auto first, auto last) {
